@@ -26,7 +26,7 @@ def gen_case(rng, thorough):
     if thorough and n * m > 4000:
         m = max(1, 4000 // n)
     kind = rng.choice(["lattice", "lattice", "coarse", "gauss", "gauss", "skew", "big"])
-    scale = rng.choice([1.0, 1.0, 1e-3, 1e3, 1e6])
+    scale = rng.choice([1.0, 1.0, 1e-3, 1e3, 1e6, 2.0 ** -40, 1e-12, 2.0 ** 40])
     shift = rng.choice([0.0, 0.0, 0.0, 100.0, -1e4])
 
     def draw():
@@ -89,13 +89,25 @@ def gen_case(rng, thorough):
 # ----------------------------------------------------------------------------
 # implementation
 
-def run_impl(obs, ens, form="flat"):
-    """public API; returns (decomposition[5], table rows) or None on ValueError"""
+def run_impl(obs, ens, form="flat", layout="C"):
+    """public API; returns (decomposition[5], table rows) or None on ValueError.
+    `layout`: memory layout of the ensemble array handed to crps (same values)."""
     from hydrodiy.stat import metrics
     o = np.array(obs, dtype=np.float64)
     if form == "column" and len(obs) >= 2:
         o = o.reshape(-1, 1)
     e = np.array(ens, dtype=np.float64).reshape(len(obs), -1)
+    if layout == "F":                 # column-major (e.g. DataFrame.values of a float frame)
+        e = np.asfortranarray(e)
+    elif layout == "T":               # transposed view of a members x forecasts array
+        e = np.ascontiguousarray(e.T).T
+    elif layout == "strided":         # every other column of a wider array
+        w = np.zeros((e.shape[0], 2 * e.shape[1]))
+        w[:, ::2] = e
+        e = w[:, ::2]
+    elif layout == "frame":
+        import pandas as pd
+        e = pd.DataFrame(e)
     try:
         with np.errstate(all="ignore"):
             dec, tab = metrics.crps(o, e)
@@ -235,7 +247,7 @@ def variants(rng, case, out):
         yield ("C03/crps/shift", f"changes when {c!r} is added to observations and members",
                obs2, ens2, d, TOL * (S + abs(c)))
     elif which == 3:
-        c = rng.choice([2.0, 0.125, 3.0, 1e-3, 7.3e4])
+        c = rng.choice([2.0, 0.125, 3.0, 1e-3, 7.3e4, 2.0 ** -40, 2.0 ** -60, 1e-13, 2.0 ** 30])
         if S * c > 1e100 or (S > 0 and S * c < 1e-200):
             return
         obs2 = [y * c for y in obs]
@@ -306,7 +318,8 @@ def run(ctx):
         case.setdefault("tag", "corpus")
         case.setdefault("kind", "corpus")
         cm.mark({"call": "metrics.crps", "case": case})
-        out = run_impl(case["obs"], case["ens"], case.get("obsform", "flat"))
+        case.setdefault("layout", rng.choice(["C", "C", "F", "T", "strided", "frame"]))
+        out = run_impl(case["obs"], case["ens"], case.get("obsform", "flat"), case["layout"])
         cases.append(case)
         outs.append(out)
         terms.append(term(case, out))
